@@ -334,3 +334,41 @@ func VerifC10_RewriterLengths() {
 	sym.Assert(r.p == len(out), "nothing follows the event")
 	sym.Reach("decoded")
 }
+
+// VerifC07_EncodeAnyLengths: header fields are not length-limited by the
+// parser (only the message is), and the listener hands over records of up to
+// four times the nominal maximum: for every combination of field lengths the
+// serializer must not panic; when the event does not fit its buffer the record
+// is reported (empty stream), never written past the end.
+//
+//verif:reach fits too-large
+//verif:solver cvc5-int
+func VerifC07_EncodeAnyLengths() {
+	schema := base.MustNewLogSchema([]string{"host", "app", "log", "env"})
+	cfg := SerializationConfig{
+		EnvironmentFields: []string{"env"},
+		RewriteFields: map[string][]bconfig.LogRewriterConfigHolder{
+			"log": {{Value: &rinline.Config{Field: "app"}}, {Value: &rcopy.Config{}}},
+		},
+	}
+	s, err := NewEventSerializer(logger.Root(), schema, cfg)
+	sym.Assume(err == nil)
+	const maxRecord = 1024*1024 + 256
+	host := string(sym.BigBytes("host", 0, 4*maxRecord))
+	app := string(sym.BigBytes("app", 0, 4*maxRecord))
+	log := string(sym.BigBytes("log", 0, 1024*1024))
+	env := "e"
+	if sym.Tier() > 0 {
+		env = string(sym.BigBytes("env", 0, 4*maxRecord))
+	}
+	sym.Assume(len(host)+len(app)+len(log)+len(env) <= 4*maxRecord)
+	rec := schema.NewTestRecord2(sym.TimeFromUnixNano(1_600_000_000_000_000_000), base.LogFields{host, app, log, env})
+	out := s.SerializeRecord(rec) // obligation: no panic
+	if len(out) > 0 {
+		sym.Assert(len(out) >= len(host)+len(app)+len(log)+len(env), "a non-empty event holds all values")
+		sym.Reach("fits")
+	} else {
+		sym.Assert(len(host)+2*len(app)+len(log)+len(env) > 2*maxRecord-200, "only events that cannot fit are given up")
+		sym.Reach("too-large")
+	}
+}
